@@ -37,7 +37,7 @@ func (s c05Scn) describe() string {
 		s.LibSet, s.PeerSet, s.Policy, s.LibMaster, s.Block, s.Accept, s.Reject, s.Defer, s.Comments, s.MOTD, s.FW, s.SID, s.EarlyFQ, s.Dup, s.LowerHex, s.CM, s.LibCfg, c01Segs[s.Seg], s.Hold)
 }
 
-var c05Sizes = []int{nMsgShapes, nMsgShapes, c01NPolicies, 2, 258, len(b2f.AcceptSpellings) + 1, len(b2f.RejectSpellings) + 1, len(b2f.DeferSpellings) + 1, 7, 4, 3, len(b2f.SIDs), 2, 2, 2, 2, 5, len(c01Segs), 3}
+var c05Sizes = []int{nMsgShapes, nMsgShapes, c01NPolicies, 2, 258, len(b2f.AcceptSpellings) + 1, len(b2f.RejectSpellings) + 1, len(b2f.DeferSpellings) + 1, 7, 4, 3, len(b2f.SIDs), 2, 2, 2, 2, 6, len(c01Segs), 3}
 
 func c05FromIdx(x []int) c05Scn {
 	return c05Scn{LibSet: c01Shape(x[0], 2), PeerSet: c01Shape(x[1], 1), Policy: x[2], LibMaster: x[3] == 1, Block: x[4], Accept: x[5], Reject: x[6], Defer: x[7],
@@ -72,6 +72,12 @@ func c05Run(sc c05Scn) c05Out {
 	case 4:
 		aux = []fbb.Address{fbb.AddressFromString("AUX1"), fbb.AddressFromString("AUX2-3")}
 		locator = ""
+	case 5: // secure login: the peer (when master) challenges; one auxiliary address has a password, the other has none
+		aux = []fbb.Address{fbb.AddressFromString("AUX1"), fbb.AddressFromString("AUX2-3")}
+	}
+	challenge := ""
+	if sc.LibCfg == 5 && !sc.LibMaster && sc.Hold != 2 {
+		challenge = "23753528"
 	}
 	VariantFrom = map[string]string{"A": libCall, "B": peerCall}
 	libSpecs, peerSpecs := msgSetShape(sc.LibSet, "A"), msgSetShape(sc.PeerSet, "B")
@@ -110,7 +116,7 @@ func c05Run(sc c05Scn) c05Out {
 			return '+'
 		},
 		C: b2f.Choices{BlockSize: blk, AcceptSpell: sc.Accept, RejectSpell: sc.Reject, DeferSpell: sc.Defer, Comments: sc.Comments, MOTD: sc.MOTD, FW: sc.FW, SID: sc.SID,
-			EarlyFQ: sc.EarlyFQ, DupMID: sc.Dup, LowerHex: sc.LowerHex, PropCM: sc.CM, HoldTurns: hold}}
+			EarlyFQ: sc.EarlyFQ, DupMID: sc.Dup, LowerHex: sc.LowerHex, PropCM: sc.CM, HoldTurns: hold, Challenge: challenge}}
 	// a peer that says FQ early hangs up at once, as a CMS does: what the Session still writes then fails
 	plan := link.Plan{Cut: link.NoCut(), FailAfter: -1, PeerClosedWritesFail: sc.EarlyFQ}
 	for d := 0; d < 2; d++ {
@@ -125,6 +131,11 @@ func c05Run(sc c05Scn) c05Out {
 				s.SetUserAgent(ua)
 				if len(aux) > 0 {
 					s.AddAuxiliaryAddress(aux...)
+				}
+				if sc.LibCfg == 5 {
+					s.SetSecureLoginHandleFunc(func(a fbb.Address) (string, error) {
+						return map[string]string{libCall: "mainPW", "AUX1": "auxPW"}[a.Addr], nil
+					})
 				}
 			}}, peerCall, c)
 	}, func(c *link.Conn) {
@@ -155,6 +166,21 @@ func c05Run(sc c05Scn) c05Out {
 	for _, c := range box.CallsOf("GetOutbound") {
 		if !strings.EqualFold(c.FW, wantFW) {
 			return fail("forwarders-handed-to-the-handler", "GetOutbound was called with %q, the peer's ;FW line announced %q", c.FW, wantFW)
+		}
+	}
+	// the ;FW line requests mail for the session's own address and every auxiliary address, in order
+	// (an item is ADDRESS or ADDRESS|hash; the hash values are C16's subject)
+	if peer.FWSeen != "" {
+		var gotFW []string
+		for _, f := range strings.Fields(peer.FWSeen[4:]) {
+			gotFW = append(gotFW, strings.SplitN(f, "|", 2)[0])
+		}
+		wantAddrs := []string{libCall}
+		for _, a := range aux {
+			wantAddrs = append(wantAddrs, a.Addr)
+		}
+		if strings.Join(gotFW, " ") != strings.Join(wantAddrs, " ") {
+			return fail("fw-line-addresses", "the Session sent %q; configured addresses: %v", peer.FWSeen, wantAddrs)
 		}
 	}
 	// the one known event-finding: answer H (accepted, will be held) is treated as defer
